@@ -79,6 +79,13 @@ def real_bad(conds, ghost, done, blocked):
     return hits
 
 
+def plain_first(e):
+    """the step's first scheduling point is a plain access (e.g. a store followed by a fused lock release): in the real run it
+    happens as soon as the thread is past its previous gate, not at this step's own gate"""
+    first = next((op for op in e.info if op[3]), None)
+    return first is None or not first[2]
+
+
 def replayable(enc):
     """discipline under which a model trace can be replayed by a sync-point scheduler: a step whose
     visible operation is a plain shared access directly follows the previous step of its thread."""
@@ -87,12 +94,12 @@ def replayable(enc):
     pt = ts.threads.index(ts.prefix_thread) if ts.prefix_thread is not None else None
     for i in range(1, enc.K):
         for e, f in enc.fired[i]:
-            if not any(op[2] for op in e.info):
+            if plain_first(e):
                 ti = ts.threads.index(e.thread)
                 ok = enc.choice[i - 1] == ti
                 cons.append(z3.Implies(f, ok))
     for e, f in enc.fired[0]:
-        if not any(op[2] for op in e.info):
+        if plain_first(e):
             # only the set-up thread may open with a plain step: in the replay it is the thread already running
             if pt is None or ts.threads.index(e.thread) != pt:
                 cons.append(z3.Not(f))
@@ -101,7 +108,7 @@ def replayable(enc):
         for e, f in enc.fired[0]:
             if ts.threads.index(e.thread) != pt:
                 for e2 in ts.by_thread[ts.prefix_thread]:
-                    if e2.src == ts.entry[ts.prefix_thread] and not any(op[2] for op in e2.info):
+                    if e2.src == ts.entry[ts.prefix_thread] and plain_first(e2):
                         cons.append(z3.Not(z3.And(f, enc.edge_enabled(e2, enc.states[0], enc.nd[0]))))
     return cons
 
@@ -240,11 +247,16 @@ def check_scenario(spec: dict) -> dict:
         disc = replayable(enc) if spec.get("sync_granularity") else []
         res["granularity"] = "context switches at synchronisation operations only" if disc else "every shared access is a scheduling point"
 
-        def run(name, cons, want_model=False):
+        use_por = spec.get("por", True) and os.environ.get("VERIF_E2_POR", "1") != "0"
+        res["partial_order_reduction"] = "peephole (adjacent independent steps in canonical thread order)" if use_por else "none"
+
+        def run(name, cons, want_model=False, por=True):
             nonlocal enc, disc
             s = solver()
             s.add(enc.cons)
             s.add(disc)
+            if por and use_por and not disc:
+                s.add(enc.por())
             s.add(cons)
             t0 = time.time()
             z3.set_param("timeout", int(budget * 1000))
@@ -275,10 +287,10 @@ def check_scenario(spec: dict) -> dict:
         r, _ = run("violation: any bad condition (must be unsat)", [anybad])
         if r == "sat":
             mode = "sync"
-            r2, tr = run("violation, context switches at synchronisation operations (replayable by the sync-point scheduler)", [anybad] + replayable(enc), want_model=True)
+            r2, tr = run("violation, context switches at synchronisation operations (replayable by the sync-point scheduler)", [anybad] + replayable(enc), want_model=True, por=False)
             if r2 != "sat":
                 mode = "line"
-                r2, tr = run("violation, context switches at source-line boundaries (replayable by the line-granular scheduler)", [anybad] + line_discipline(enc), want_model=True)
+                r2, tr = run("violation, context switches at source-line boundaries (replayable by the line-granular scheduler)", [anybad] + line_discipline(enc), want_model=True, por=False)
             if r2 != "sat":
                 res["harness_errors"].append(f"{spec['name']}: a model counterexample exists but none that the replay schedulers can reproduce (sync points: unsat/unknown, source lines: {r2})")
             else:
@@ -291,6 +303,12 @@ def check_scenario(spec: dict) -> dict:
                                               f"ghost={ghost}, finished={done}, blocked={blocked})", "order": order, "mode": mode, "trace": listing, "scenario": spec})
                 else:
                     res["harness_errors"].append(f"{spec['name']}: model counterexample did not reproduce on the real classes ({mode}-granular replay, diverged={sched.diverged}, hits={hits}, blocked={blocked}); first steps: {listing[:12]}")
+                    if os.environ.get("VERIF_E2_DEBUG"):
+                        print("MODEL TRACE:\n  " + "\n  ".join(listing), file=sys.stderr)
+                        print("MODEL END STATE:", sc.observe_model(tr["states"][-1]) if "states" in tr else None, file=sys.stderr)
+                        print("ORDER:", order, file=sys.stderr)
+                        print("REAL LOG:", sched.log, file=sys.stderr)
+                        print("REAL:", ghost, done, blocked, file=sys.stderr)
         elif r != "unsat":
             res["inconclusive"].append(f"{spec['name']}: violation query gave {r}")
         if spec.get("export_smt2"):
@@ -317,11 +335,11 @@ def simulate_replayable(sc, rng, max_steps=3000):
         en = ts.enabled(st, nd)
         if not en:
             break
-        forced = [e for e in en if e.thread == last and not any(op[2] for op in e.info)]
+        forced = [e for e in en if e.thread == last and plain_first(e)]
         if forced:
             e = forced[0]
         else:
-            cand = [e for e in en if any(op[2] for op in e.info)]
+            cand = [e for e in en if not plain_first(e)]
             if not cand:
                 cand = en
             e = rng.choice(cand)
@@ -416,7 +434,7 @@ def outcome_from(property_id, tier, results, functions, assumptions, bounds, out
         "obligations": 3 * len(results),
         "discharged": sum(1 for r in results for q in r["queries"] if (q["query"].startswith("witness") and q["result"] == "sat") or (q["query"].startswith("violation:") and q["result"] == "unsat") or (q["query"].startswith("unwinding") and q["result"] == "unsat")),
         "solver_s": round(solver_s, 1),
-        "per_scenario": [{k: r.get(k) for k in ("name", "granularity", "K", "cfa_locations", "cfa_edges", "raw_edges", "state_vars", "universe", "protected", "queries", "traces_validated", "sim_max_steps", "wall_s", "second_solver")} for r in results],
+        "per_scenario": [{k: r.get(k) for k in ("name", "granularity", "K", "cfa_locations", "cfa_edges", "raw_edges", "state_vars", "universe", "protected", "partial_order_reduction", "queries", "traces_validated", "sim_max_steps", "wall_s", "second_solver")} for r in results],
         "bounds": bounds,
         "outside_the_claim": outside,
         "explanation": explanation,
